@@ -339,6 +339,9 @@ func main() {
 				n := nSess
 				if p.Heavy {
 					n = 2
+					if c.a.Tier == "thorough" {
+						n = 4
+					}
 				}
 				runs := []*obs{A}
 				for s := 1; s < n; s++ {
